@@ -48,7 +48,10 @@ LEAN_TARGETS = ["PV.C02.Thm", "PV.C02.RThm", "PV.C02.RProgThm", "PV.C02.FStrLex"
                 "PV.C02.FProgSoundNodes", "PV.C02.FProgSoundItems", "PV.C02.FProgSound1", "PV.C02.FProgSound2",
                 "PV.C02.FProgSound3", "PV.C02.FProgSound4", "PV.C02.FProgThm",
                 "PV.C02.GLex", "PV.C02.GField", "PV.C02.GSoundNodes", "PV.C02.GSoundIdx", "PV.C02.GStrBody",
-                "PV.C02.GSoundSteps", "PV.C02.GStrFull", "PV.C02.GShape", "PV.C02.GStrFullN"]
+                "PV.C02.GSoundSteps", "PV.C02.GStrFull", "PV.C02.GShape", "PV.C02.GStrFullN",
+                "PV.C02.GProgTie", "PV.C02.GProgPlain", "PV.C02.GProgSoundBase", "PV.C02.GProgSoundSeq",
+                "PV.C02.GProgSoundNodes", "PV.C02.GProgSoundItems", "PV.C02.GProgSound1", "PV.C02.GProgSound2",
+                "PV.C02.GProgSound3", "PV.C02.GProgSound4", "PV.C02.GProgThm"]
 DRIVER = "drv_c02"
 HARNESS = {"bin": "pvh_c01", "features": "all-ranges"}
 THEOREMS = [
@@ -118,6 +121,9 @@ THEOREMS = [
     "PV.C02.parseR_rangesOk_fstrN",
     "PV.C02.parseRExpression_rangesOk_fstrN",
     "PV.C02.parseR_rangesOk_full_tied",
+    # …and the program level at every depth, for trees of well-formed f-string shape
+    "PV.C02.G.compSAt",
+    "PV.C02.parseRProgram_rangesOk_fstrN_wf",
     # about the model of range computation for whole programs (ranged twin of the reference program parser PV.Prog)
     "PV.C02.parseRProgramFuel_erase",
     "PV.C02.parseRProgram_erase",
@@ -250,9 +256,14 @@ PARTIAL = [
     "the F files), whose f-string step uses the hypothesis at the inner table (G.strings_resG, InnerSoundAll); and "
     "G.shapeAt (GShape, GENERATED by tools/c02_gen_gshape.py: the parser only returns trees of well-formed f-string "
     "shape), which removes the last hypothesis on the tree",
-    "not proved: the PROGRAM level at every depth — parseRProgram_rangesOk_fstr still demands fplainM1 (f-strings "
-    "nested inside a replacement field excluded): RProgSound1-4 would have to be re-run once more over G.soundAt "
-    "(tools/c02_gen_fprog.py with the namespace G and the tie GTie) plus the shape induction for programs; the listed finding fstring-field-range-after-crlf is reproduced "
+    "proved (unbounded, for the MODEL of whole programs): parseRProgram_rangesOk_fstrN_wf — TiledP + FTiedP + accepted + "
+    "fwfM m -> rangesOk for the whole tree with f-string literals at EVERY depth; fwfM (= PV.C02.G.plainM) is a pure "
+    "SHAPE predicate (a FormattedValue only as a piece of a JoinedStr …), no plain-ness or nesting condition. The "
+    "program-level induction re-run once more, over G.soundAt (GProg*.lean GENERATED by tools/c02_gen_gsound.py from the "
+    "FProg files)",
+    "not proved: that the PROGRAM parser only returns trees of well-formed f-string shape (the analogue of G.shapeAt "
+    "for the ~60 functions of RProg.lean), i.e. dropping fwfM from parseRProgram_rangesOk_fstrN_wf; without it the "
+    "unconditional program-level statement is proved one level deep only (parseRProgram_rangesOk_fstr); the listed finding fstring-field-range-after-crlf is reproduced "
     "by the program model per input (real token values) but lies outside the lexer model's domain",
     "the bridges tiled_of_lexer / tiledP_of_lexer relate token SPANS of the lexer model to `Tiled`; token values of "
     "PV.Lexer.Tok and PV.Expr.Tok are related only by correspondence streams",
@@ -288,8 +299,9 @@ LEVEL_TEXT = ("Machine-checked Lean 4, for every input and fuel: (1) erasing the
 LEVEL_NOTE = ("Partial: at the EXPRESSION level the structural theorem holds for EVERY tree under the tie FTied "
               "(parseR_rangesOk_fstrN: f-string literals at any position and depth; the statement with `Tiled` alone is "
               "refuted, parseR_rangesOk_fails: the token value must be tied to its span; a CR LF folded by the real lexer "
-              "breaks the tie — listed finding); at the PROGRAM level f-string literals are covered one level deep "
-              "(parseRProgram_rangesOk_fstr, fplainM1: f-strings nested inside a replacement field excluded). Exact extents of "
+              "breaks the tie — listed finding); at the PROGRAM level f-string literals are covered at every depth for trees of well-formed "
+              "f-string shape (parseRProgram_rangesOk_fstrN_wf; the shape hypothesis fwfM is not yet discharged for the "
+              "program parser) and one level deep under the decidable domain fplainM1 (parseRProgram_rangesOk_fstr). Exact extents of "
               "program-level nodes "
               "other than small statements are proved as windows / token-aligned ends, not as equations with the token "
               "span (compared per input). Trusted: fidelity of the hand-written models as sampled by the correspondence "
